@@ -18,55 +18,63 @@ CONSTANTS NBatches,        \* batches per run
           Guarded          \* step kinds whose exceptions reach a hook-clearing handler
 
 HSteps == <<"slice", "genrefs", "reqgrad", "forward", "backward", "delta", "project", "accumulate">>
-Programs == [ predict |-> <<"P">>, deep_lift_shap |-> <<"H">>, saturation_mutagenesis |-> <<"P", "P">>,
-              marginalize |-> <<"P", "P">>, marginalize_dls |-> <<"H", "H">>, ablate |-> <<"P", "P">>,
-              ablate_dls |-> <<"H", "H">>, space |-> <<"P", "P">>, variant_effect |-> <<"P", "P">>,
-              apply_product |-> <<"P">>, greedy_substitution |-> <<"P", "P">> ]
+\* runs of every API function and batches per run, for the inputs the conformance driver uses (harness/impl/c07.py
+\* PROGRAMS mirrors this table and a dry run checks the mirror); NBatches scales the table for deeper exploration
+P(nb) == <<"P", nb>>
+H(nb) == <<"H", nb>>
+Programs == [ predict |-> <<P(2)>>, deep_lift_shap |-> <<H(2)>>, saturation_mutagenesis |-> <<P(1), P(2)>>,
+              marginalize |-> <<P(2), P(2)>>, marginalize_dls |-> <<H(2), H(2)>>, ablate |-> <<P(1), P(2)>>,
+              ablate_dls |-> <<H(2), H(2)>>, space |-> <<P(2), P(2)>>, variant_effect |-> <<P(2), P(2)>>,
+              apply_product |-> <<P(2)>>, greedy_substitution |-> <<P(1), P(2)>> ]
+KindOf(f, r) == Programs[f][r][1]
+NB(f, r) == Programs[f][r][2] + (NBatches - 2)
 Funcs == DOMAIN Programs
 NoCrash == <<0, "none", 0>>
 CrashPoints(f) ==
     {NoCrash} \cup
-    UNION { IF Programs[f][r] = "P" THEN { <<r, "forward", k>> : k \in 1..NBatches }
-            ELSE { <<r, "register", 1>> } \cup { <<r, HSteps[j], k>> : j \in 1..Len(HSteps), k \in 1..NBatches }
+    UNION { IF KindOf(f, r) = "P" THEN { <<r, "forward", k>> : k \in 1..NB(f, r) }
+            ELSE { <<r, "register", 1>> } \cup { <<r, HSteps[j], k>> : j \in 1..Len(HSteps), k \in 1..NB(f, r) }
           : r \in 1..Len(Programs[f]) }
 
 VARIABLES pc,        \* "idle" | "run" | "returned" | "raised"
           func, crash, run, step, batch,     \* the call in progress
           mode, hooks, ops, sd,              \* the model
-          ncalls                             \* calls completed so far in this history
-vars == <<pc, func, crash, run, step, batch, mode, hooks, ops, sd, ncalls>>
+          ncalls,                            \* calls completed so far in this history
+          hist                               \* the calls made so far, <<function, crash point>> (history variable: lets
+                                             \* every explored history be replayed against the implementation)
+vars == <<pc, func, crash, run, step, batch, mode, hooks, ops, sd, ncalls, hist>>
 
 Init == /\ pc = "idle" /\ func = "predict" /\ crash = NoCrash /\ run = 0 /\ step = "none" /\ batch = 0
-        /\ mode \in {"train", "eval"} /\ hooks = FALSE /\ ops = FALSE /\ sd = 0 /\ ncalls = 0
+        /\ mode \in {"train", "eval"} /\ hooks = FALSE /\ ops = FALSE /\ sd = 0 /\ ncalls = 0 /\ hist = <<>>
 
-Call == /\ pc \in {"idle", "returned", "raised"} /\ ncalls < MaxCalls
-        /\ \E f \in Funcs : \E cp \in CrashPoints(f) :
-              /\ func' = f /\ crash' = cp
-              /\ run' = 1 /\ batch' = 1
-              /\ step' = IF Programs[f][1] = "H" THEN "register" ELSE "forward"
-        /\ mode' = "eval" /\ ops' = (Programs[func'][1] = "H")
-        /\ pc' = "run" /\ UNCHANGED <<hooks, sd, ncalls>>
+CallWith(f, cp) == /\ pc \in {"idle", "returned", "raised"}
+                   /\ func' = f /\ crash' = cp /\ run' = 1 /\ batch' = 1
+                   /\ step' = IF KindOf(f, 1) = "H" THEN "register" ELSE "forward"
+                   /\ mode' = "eval" /\ ops' = (KindOf(f, 1) = "H")
+                   /\ pc' = "run" /\ UNCHANGED <<hooks, sd, ncalls>>
+Call == /\ ncalls < MaxCalls
+        /\ \E f \in Funcs : \E cp \in CrashPoints(f) : CallWith(f, cp) /\ hist' = Append(hist, <<f, cp>>)
 
 Hit == crash = <<run, step, batch>>
-Kind == Programs[func][run]
+Kind == KindOf(func, run)
 Raise == /\ Hit /\ pc' = "raised" /\ ncalls' = ncalls + 1
          /\ hooks' = IF step \in Guarded THEN FALSE ELSE hooks
-         /\ UNCHANGED <<func, crash, run, step, batch, mode, ops, sd>>
+         /\ UNCHANGED <<func, crash, run, step, batch, mode, ops, sd, hist>>
 NextRun == \* the current run is complete: clear (H) and start the next run or return
     IF run < Len(Programs[func])
     THEN /\ run' = run + 1 /\ batch' = 1 /\ hooks' = FALSE
-         /\ step' = IF Programs[func][run + 1] = "H" THEN "register" ELSE "forward"
-         /\ ops' = (Programs[func][run + 1] = "H") /\ UNCHANGED <<pc, ncalls>>
+         /\ step' = IF KindOf(func, run + 1) = "H" THEN "register" ELSE "forward"
+         /\ ops' = (KindOf(func, run + 1) = "H") /\ UNCHANGED <<pc, ncalls>>
     ELSE /\ pc' = "returned" /\ ncalls' = ncalls + 1 /\ hooks' = FALSE /\ ops' = FALSE /\ UNCHANGED <<run, step, batch>>
 Step == /\ pc = "run" /\ ~Hit
         /\ IF Kind = "P"
-           THEN IF batch < NBatches THEN batch' = batch + 1 /\ UNCHANGED <<pc, run, step, hooks, ops, ncalls>> ELSE NextRun
+           THEN IF batch < NB(func, run) THEN batch' = batch + 1 /\ UNCHANGED <<pc, run, step, hooks, ops, ncalls>> ELSE NextRun
            ELSE IF step = "register" THEN hooks' = TRUE /\ step' = HSteps[1] /\ UNCHANGED <<pc, run, batch, ops, ncalls>>
            ELSE LET j == CHOOSE i \in 1..Len(HSteps) : HSteps[i] = step IN
                 IF j < Len(HSteps) THEN step' = HSteps[j + 1] /\ UNCHANGED <<pc, run, batch, hooks, ops, ncalls>>
-                ELSE IF batch < NBatches THEN batch' = batch + 1 /\ step' = HSteps[1] /\ UNCHANGED <<pc, run, hooks, ops, ncalls>>
+                ELSE IF batch < NB(func, run) THEN batch' = batch + 1 /\ step' = HSteps[1] /\ UNCHANGED <<pc, run, hooks, ops, ncalls>>
                 ELSE NextRun
-        /\ UNCHANGED <<func, crash, mode, sd>>
+        /\ UNCHANGED <<func, crash, mode, sd, hist>>
 Next == Call \/ (pc = "run" /\ Raise) \/ Step
 Spec == Init /\ [][Next]_vars /\ WF_vars(Step) /\ WF_vars(pc = "run" /\ Raise)
 
